@@ -698,3 +698,59 @@ Definition model_obs (L : Z) (ns : list node) (es : list edge) (o : topts) (quer
         obs_diffs d0; obs_diffs d1 ] ++ tobs).
 
 Definition zlll_eqb := list_eqb zll_eqb.
+
+(* ------------------------------------------------------------------------------------ *)
+(* tsk_treeseq_init_trees: tree_sites[] and mutation->edge (node_edge_map)                *)
+(* ------------------------------------------------------------------------------------ *)
+
+Fixpoint nem_out (m : list Z) (l : list iedge) : res (list Z) :=
+  match l with [] => Ok m | (_, e) :: r => do m <- set m (echild e) NULL; nem_out m r end.
+Fixpoint nem_in (m : list Z) (l : list iedge) : res (list Z) :=
+  match l with [] => Ok m | (i, e) :: r => do m <- set m (echild e) i; nem_in m r end.
+
+(* while (mutation_id < num_mutations && mutation_site[mutation_id] == site_id) *)
+Fixpoint muts_of_site (nem : list Z) (site_id : Z) (muts : list (Z * Z)) : res (list Z * list (Z * Z)) :=
+  match muts with
+  | (s, nd) :: r =>
+      if s =? site_id then
+        do e <- get nem nd; do '(es, rest) <- muts_of_site nem site_id r; Ok (e :: es, rest)
+      else Ok ([], muts)
+  | [] => Ok ([], [])
+  end.
+
+(* while (site_id < num_sites && site_position[site_id] < tree_right) *)
+Fixpoint sites_of_tree (nem : list Z) (tr : Z) (sites muts : list (Z * Z))
+  : res (list Z * list Z * list (Z * Z) * list (Z * Z)) :=
+  match sites with
+  | (sid, pos) :: r =>
+      if pos <? tr then
+        do '(me, muts') <- muts_of_site nem sid muts;
+        do '(ids, mes, sr, mr) <- sites_of_tree nem tr r muts';
+        Ok (sid :: ids, me ++ mes, sr, mr)
+      else Ok ([], [], sites, muts)
+  | [] => Ok ([], [], [], muts)
+  end.
+
+Fixpoint init_trees_sites (steps : list step) (nem : list Z) (sites muts : list (Z * Z))
+  : res (list (list Z) * list Z) :=
+  match steps with
+  | [] => Ok ([], [])
+  | s :: r =>
+      do nem <- nem_out nem (s_out s);
+      do nem <- nem_in nem (s_in s);
+      do '(ids, mes, sites', muts') <- sites_of_tree nem (s_right s) sites muts;
+      do '(rids, rmes) <- init_trees_sites r nem sites' muts';
+      Ok (ids :: rids, mes ++ rmes)
+  end.
+
+Fixpoint enum_from {A} (i : Z) (l : list A) : list (Z * A) :=
+  match l with [] => [] | x :: r => (i, x) :: enum_from (i + 1) r end.
+
+(* sites: positions in id order; muts: (site, node) in id order.
+   result: per-tree site id lists followed by the list of mutation edges *)
+Definition model_sites (L : Z) (ns : list node) (es : list edge) (sites : list Z) (muts : list (Z * Z))
+  : res (list (list Z)) :=
+  do q <- load L ns es;
+  do '(steps, _) <- sweep L (q_I q) (q_O q);
+  do '(ids, mes) <- init_trees_sites steps (repeat NULL (length ns)) (enum_from 0 sites) muts;
+  Ok (ids ++ [mes]).
